@@ -104,6 +104,7 @@ Proof. exact (failed_body_read_not_head payload resp read_req resp_code write_ou
 Theorem c05_oracle_sound :
   forall c o,
     oracle_c05_step resp resp_code (c_rs c) (c_ws c) o (err_of payload (fst (step c o)))
+                    (kind_of_step payload resp read_req c o)
                     (c_rs (snd (step c o))) (c_ws (snd (step c o))) (wdelta c o) = true.
 Proof. exact (oracle_c05_sound payload resp read_req resp_code write_out resp_continue true continue_code eq_refl). Qed.
 End C05.
